@@ -67,6 +67,12 @@ type Reader struct {
 	Pos  int
 	Seg  types.HashSegmentMap
 	Hook func(r *Reader, t reflect.Type, path string) bool
+	// Lax makes the reader follow ONE known defect of the implementation instead
+	// of the format, so that a harness can ask "does defect D explain what the
+	// implementation consumed?": "workitem" = WorkItem ends after an import-segment
+	// count of 0; "storage" = Storage ends at a zero key length; "operand" = Operand reads 8 more
+	// bytes after the compact gas limit.
+	Lax string
 }
 
 type rejectPanic struct{ r *Reject }
@@ -152,7 +158,12 @@ func (r *Reader) flag(reason, path string) bool {
 // RefDecode parses one value of type t from data. rej == nil means canonical,
 // consumed tells how long the value is.
 func RefDecode(t reflect.Type, data []byte, seg types.HashSegmentMap, hook func(r *Reader, t reflect.Type, path string) bool) (consumed int, rej *Reject) {
-	r := &Reader{Data: data, Seg: seg, Hook: hook}
+	return RefDecodeLax(t, data, seg, hook, "")
+}
+
+// RefDecodeLax is RefDecode following one known implementation defect (see Reader.Lax).
+func RefDecodeLax(t reflect.Type, data []byte, seg types.HashSegmentMap, hook func(r *Reader, t reflect.Type, path string) bool, lax string) (consumed int, rej *Reject) {
+	r := &Reader{Data: data, Seg: seg, Hook: hook, Lax: lax}
 	defer func() {
 		if p := recover(); p != nil {
 			if rp, ok := p.(rejectPanic); ok {
@@ -227,6 +238,9 @@ func (r *Reader) Value(t reflect.Type, path string) {
 	case tOperand:
 		r.Take(128, path)
 		r.CompactInt(path + ".GasLimit")
+		if r.Lax == "operand" {
+			r.Take(8, path+".GasLimit#second-read") // the implementation reads the gas limit a second time
+		}
 		r.Value(tWorkExecResult, path+".Result")
 		r.Blob(path + ".AuthOutput")
 		return
@@ -270,13 +284,38 @@ func (r *Reader) Value(t reflect.Type, path string) {
 			}
 		}
 		return
+	case typeOf[types.WorkItem]():
+		for i := 0; i < t.NumField(); i++ {
+			name := t.Field(i).Name
+			if name == "ImportSegments" && r.Lax == "workitem" {
+				save := r.Pos
+				if r.CompactInt(path+"."+name) == 0 {
+					return // the implementation returns here
+				}
+				r.Pos = save
+			}
+			r.Value(t.Field(i).Type, path+"."+name)
+		}
+		return
 	case tStorage:
-		n := r.Count(path, 3, 16)
+		var n int
+		if r.Lax == "storage" {
+			c := r.CompactInt(path)
+			if c > 1<<20 {
+				r.fail(RCountTooBig, path, "count", r.Pos)
+			}
+			n = int(c)
+		} else {
+			n = r.Count(path, 3, 16)
+		}
 		var prev []byte
 		for i := 0; i < n; i++ {
 			p := fmt.Sprintf("%s[%d]", path, i)
 			off := r.Pos
 			kl := r.CompactInt(p + ".keylen")
+			if kl == 0 && r.Lax == "storage" {
+				return // the implementation returns here
+			}
 			koff := r.Pos
 			k := r.Blob(p + ".key")
 			if uint64(len(k)) != kl {
